@@ -6,7 +6,7 @@ import subprocess
 import time
 import tomllib
 
-from kv import Index, Weaver, Undecided, VERIF, REPO, sha, emit_closure_fn
+from kv import Index, Weaver, Undecided, VERIF, REPO, sha, emit_closure_fn, split_top_commas
 
 WORK = os.path.join(VERIF, ".work")
 
@@ -349,6 +349,153 @@ def supply_consts(unit, res):
         return None
     unit.text = unit.text[:k] + "\n" + "\n".join(add) + unit.text[k:]
     return unit.text
+
+
+def _strip_line_comments(t):
+    """remove `// ..` comments outside string / char literals (so a multi-line body can be put on one line)"""
+    out, i, n = [], 0, len(t)
+    while i < n:
+        c = t[i]
+        if c == '"':
+            j = i + 1
+            while j < n and t[j] != '"':
+                j += 2 if t[j] == "\\" else 1
+            out.append(t[i:j + 1]); i = j + 1
+        elif c == "/" and t[i:i + 2] == "//":
+            j = t.find("\n", i)
+            i = n if j < 0 else j
+        elif c == "/" and t[i:i + 2] == "/*":
+            j = t.find("*/", i + 2)
+            j = n if j < 0 else j + 2
+            out.append(t[i:j]); i = j
+        else:
+            out.append(c); i += 1
+    return "".join(out)
+
+
+def _balanced(text, k):
+    """text[k] == '(' -> index of the matching ')' (strings skipped), or -1"""
+    depth, i, n = 0, k, len(text)
+    while i < n:
+        c = text[i]
+        if c == '"':
+            i += 1
+            while i < n and text[i] != '"':
+                i += 2 if text[i] == "\\" else 1
+        elif c in "([{":
+            depth += 1
+        elif c in ")]}":
+            depth -= 1
+            if depth == 0:
+                return i
+        i += 1
+    return -1
+
+
+def supply_helpers(unit, res):
+    """D9: when changed code calls a function of the repository that the unit does not contain (rustc: cannot find function /
+    no method named / no function or associated item named), and the files the unit's functions come from define exactly one such
+    non-test function that is small enough to read as an expression — no generics, no `return`, no `?`, no `.await`, receiver
+    absent or `&self`, named parameters — every call of it in the unit is replaced by the function's own (woven) body with the
+    parameters bound to the arguments: `h(a, b)` -> `{ let (p, q): (P, Q) = (a, b); BODY }`, `x.h(a)` -> `{ let kvx_hs = &(x); .. }`
+    with `self` renamed. This is the definition of a call of a non-recursive function; nothing is assumed about the helper.
+    Returns the new text or None (then the run stays undecided)."""
+    names = []
+    for d in res.get("diags", []):
+        msg = d.get("message", "")
+        for pat in (r"cannot find function `(\w+)` in this scope", r"no method named `(\w+)` found", r"no function or associated item named `(\w+)` found"):
+            m = re.match(pat, msg)
+            if m and m.group(1) not in names:
+                names.append(m.group(1))
+    if not names:
+        return None
+    files = list(dict.fromkeys(r["file"] for r in unit.weaver.records if r.get("file")))
+    dirs = list(dict.fromkeys(list(unit.sc.get("crate_src", ["server/lib/src"])) + WIDE_SRC))
+    ix = get_index(dirs)
+    text = unit.text
+    done = 0
+    for n in names:
+        cands = [it for it in ix.items if it.get("kind") == "fn" and it.get("name") == n and not it.get("in_test") and "body_open" in it
+                 and os.path.relpath(it["file"], REPO) in files]
+        cands = list({(c["file"], tuple(c["span"])): c for c in cands}.values())      # overlapping source directories index a file twice
+        if len(cands) != 1:
+            return None
+        it = cands[0]
+        src = ix.source(it["file"])
+        sig = src[it["sig_span"][0]:it["sig_span"][1]].decode("utf-8")
+        if it.get("is_async") or it.get("is_unsafe") or it.get("where_span") or re.search(r"fn\s+\w+\s*<", sig) or it.get("nested_fns"):
+            return None
+        params, has_self = [], False
+        for inp in it.get("inputs", []):
+            ptxt = src[inp["span"][0]:inp["span"][1]].decode("utf-8").strip()
+            if inp.get("name") == "self":
+                if "".join(ptxt.split()) != "&self":
+                    return None
+                has_self = True
+                continue
+            if not inp.get("name") or "'" in ptxt or "impl " in ptxt or ptxt.startswith("mut "):
+                return None
+            nm, ty = ptxt.split(":", 1)
+            params.append((nm.strip(), ty.strip()))
+        w = unit.weaver
+        nrec = len(w.records)
+        try:
+            woven, _ = w.emit_fn({"path": it["path"], "id": "kvx_helper_" + n, "file_hint": os.path.relpath(it["file"], REPO), "impl_self": it.get("impl_self"), "trait": it.get("impl_trait")})
+        except Exception:
+            del w.records[nrec:]
+            return None
+        k = woven.find("{", woven.find(")", woven.find("fn " + n)))
+        body = woven[k:woven.rfind("}") + 1]
+        body = " ".join(_strip_line_comments(body).split())
+        if re.search(r"\breturn\b|\?|\.await\b|\bSelf\b", body):
+            del w.records[nrec:]
+            return None
+        if has_self:
+            body = re.sub(r"\bself\b", "kvx_hs", body)
+        bind = ""
+        if len(params) == 1:
+            bind = "let {}: {} = {{}};".format(*params[0])
+        elif params:
+            bind = "let ({}): ({}) = ({{}});".format(", ".join(a for a, _ in params), ", ".join(b for _, b in params))
+        # call sites
+        if has_self:
+            rx = re.compile(r"(?<![\w\.])((?:[A-Za-z_]\w*)(?:\s*\.\s*[A-Za-z_]\w*)*)\s*\.\s*" + re.escape(n) + r"\s*\(")
+        else:
+            rx = re.compile(r"(?<![\w\.:])(?:(?:[A-Za-z_]\w*)\s*::\s*)*" + re.escape(n) + r"\s*\(")
+        pos, out, cnt = 0, [], 0
+        while True:
+            m = rx.search(text, pos)
+            if not m:
+                break
+            if re.search(r"\bfn\s+$", text[max(0, m.start() - 8):m.start()]):
+                pos = m.end(); continue
+            po = m.end() - 1
+            pc = _balanced(text, po)
+            if pc < 0:
+                return None
+            args = text[po + 1:pc]
+            if "\n" in args:
+                args = " ".join(_strip_line_comments(args).split())
+            nargs = len([a for a in split_top_commas(args) if a.strip()]) if args.strip() else 0
+            if nargs != len(params):
+                return None
+            rep = "{ " + (f"let kvx_hs = &({m.group(1)}); " if has_self else "") + (bind.format(args) if params else "") + " " + body + " }"
+            out.append(text[pos:m.start()]); out.append(rep)
+            pos = pc + 1
+            cnt += 1
+        out.append(text[pos:])
+        if cnt == 0:
+            del w.records[nrec:]
+            return None
+        text = "".join(out)
+        for r in w.records[nrec:]:
+            r.setdefault("rules_fired", {})["D9"] = cnt
+            r["kind"] = "fn-inlined"
+        done += 1
+    if not done:
+        return None
+    unit.text = text
+    return text
 
 
 def run_verus(text, workname, rlimit=None, extra_args=None, timeout=900):
